@@ -292,6 +292,9 @@ def unbox(v, dt):
                 if c.branch(z3.fpIsNaN(e)):
                     raise ValueError("cannot convert float NaN to integer")
                 raise OverflowError("cannot convert float infinity to integer")
+            if z3.is_app_of(e, z3.Z3_OP_FPA_TO_FP) and e.num_args() == 2 and z3.is_bv(e.arg(1)) and \
+                    e.arg(1).get_id() in c.notes.get("exact_in_float", ()):
+                return e.arg(1)        # float64(int) of a small integer converts back exactly
             return z3.fpToSBV(z3.RTZ(), e, z3.BitVecSort(64))
         e = SymI64.lift(v)
         if e is None:
@@ -307,6 +310,8 @@ def unbox(v, dt):
         if isinstance(v, (int, float)): return z3.BoolVal(builtins.bool(v))
         raise ModelGap(f"store {type(v).__name__} into bool array")
     if k == "M":
+        if type(v).__name__ == "SymPyDate":
+            v = SymDT(v.ticks, v.unit)
         if isinstance(v, SymDT):
             if dt.unit in (v.unit, "generic") or v.unit == "generic": return v.e
             try:
@@ -330,8 +335,26 @@ def unbox(v, dt):
         return _strcell(v, dt)
     return v
 
+def _div_exact(e, k):
+    """e / k for a term that is syntactically a multiple of k (y * k, possibly under If): avoids a 64-bit division"""
+    e = z3.simplify(e)
+    if z3.is_bv_value(e):
+        v = e.as_signed_long()
+        return z3.BitVecVal(v // k, 64) if v % k == 0 else None
+    if z3.is_app_of(e, z3.Z3_OP_BMUL) and e.num_args() == 2:
+        a, b = e.arg(0), e.arg(1)
+        if z3.is_bv_value(a) and a.as_signed_long() == k: return b
+        if z3.is_bv_value(b) and b.as_signed_long() == k: return a
+    if z3.is_app_of(e, z3.Z3_OP_ITE):
+        x, y = _div_exact(e.arg(1), k), _div_exact(e.arg(2), k)
+        if x is not None and y is not None: return z3.If(e.arg(0), x, y)
+    return None
+
 def _coarsen(v, unit):
     k = symx.unit_ratio(unit, v.unit)
+    d = _div_exact(z3.If(v.e == INT64_MIN, z3.BitVecVal(0, 64), v.e), k)
+    if d is not None:
+        return z3.If(v.e == INT64_MIN, v.e, d)
     # floor division (NumPy floors toward -inf when casting to a coarser unit)
     q = z3.If(v.e >= 0, v.e / k, -((-v.e + (k - 1)) / k))
     return z3.If(v.e == INT64_MIN, v.e, q)
@@ -346,6 +369,11 @@ def cast_cell(c, fm, to):
     if fm.kind in "TU" and to.kind in "TU":
         return _strcell(c, to)
     if to.kind == "O":
+        if fm.kind == "M":
+            from . import symdt
+            if z3.is_true(z3.simplify(c == INT64_MIN)) or (not z3.is_false(z3.simplify(c == INT64_MIN)) and symx.ctx().branch(c == INT64_MIN)):
+                return None
+            return symdt.SymPyDate(c, fm.unit)
         return box(c, fm)
     if fm.kind in "TU":
         raise ModelGap(f"astype string -> {to}")
